@@ -15,6 +15,56 @@ import (
 // other index or slice expression takes its bound from the file being parsed
 // and panics on a damaged file where the methods would have returned an error.
 func CheckedTable(p *load.Program, run *report.Run, relPkg, typeName string) {
+	// single assignment: the Set method refuses an element that is already set
+	forEachFunc(p, []string{relPkg}, nil, func(c *fnCtx) {
+		info := c.pkg.TypesInfo
+		if c.fd.Recv == nil || len(c.fd.Recv.List) != 1 || c.fd.Name.Name != "Set" || !isNamed(info.TypeOf(c.fd.Recv.List[0].Type), typeName) || len(c.fd.Recv.List[0].Names) != 1 {
+			return
+		}
+		recv := info.ObjectOf(c.fd.Recv.List[0].Names[0])
+		run.Count("checked-table-setters", 1)
+		key := c.name + "/single assignment"
+		guarded := false
+		var store ast.Node
+		for _, st := range effective(info, c.fd.Body.List) {
+			switch t := st.(type) {
+			case *ast.IfStmt:
+				// if s[index] { return <error> }
+				cond := ast.Unparen(t.Cond)
+				if be, ok := cond.(*ast.BinaryExpr); ok && be.Op == token.EQL {
+					cond = ast.Unparen(be.X)
+				}
+				if ix, ok := cond.(*ast.IndexExpr); ok && store == nil {
+					if id, ok := ast.Unparen(ix.X).(*ast.Ident); ok && info.ObjectOf(id) == recv {
+						body := effective(info, t.Body.List)
+						if len(body) >= 1 {
+							if r, ok := body[len(body)-1].(*ast.ReturnStmt); ok && len(r.Results) == 1 {
+								if id, isNil := r.Results[0].(*ast.Ident); !isNil || id.Name != "nil" {
+									guarded = true
+								}
+							}
+						}
+					}
+				}
+			case *ast.AssignStmt:
+				if len(t.Lhs) == 1 {
+					if ix, ok := ast.Unparen(t.Lhs[0]).(*ast.IndexExpr); ok {
+						if id, ok := ast.Unparen(ix.X).(*ast.Ident); ok && info.ObjectOf(id) == recv && store == nil {
+							store = t
+						}
+					}
+				}
+			}
+		}
+		switch {
+		case store == nil:
+			run.Undecided("single-assignment", key, c.p.Rel(c.fd.Pos()), "the store that marks the element was not found")
+		case !guarded:
+			run.Violate("single-assignment", key, c.p.Rel(store.Pos()), "the table marks a wire without refusing one that is already marked: a file whose gate writes an input wire or the output of an earlier gate is accepted, garbling then overwrites a label pair after inputs were chosen from it (the two-party run fails with unknown label for every input)", nil)
+		default:
+			run.OK("single-assignment", key, c.p.Rel(store.Pos()), "an already marked element is an error")
+		}
+	})
 	forEachFunc(p, []string{relPkg}, nil, func(c *fnCtx) {
 		info := c.pkg.TypesInfo
 		// methods of the table itself may index it
